@@ -799,7 +799,7 @@ int main(int argc, char **argv)
           if (line.empty()) continue;
           ++index;
           Document d;
-          d.Parse(line.c_str());
+          d.Parse<rapidjson::kParseFullPrecisionFlag>(line.c_str());
           if (d.HasParseError())
             throw HarnessError("behaviour " + std::to_string(index) + ": JSON parse error: " + rapidjson::GetParseError_En(d.GetParseError()));
           const bool global = d.HasMember("global") && d["global"].GetBool();
